@@ -50,7 +50,7 @@ func NewPriorityQueue(lessFn common_info.LessFn, maxQueueSize int) *PriorityQueu
 func (q *PriorityQueue) Push(it interface{}) {
 	heap.Push(&q.queue, it)
 	if q.maxQueueSize != QueueCapacityInfinite && q.queue.Len() > q.maxQueueSize {
-		heap.Remove(&q.queue, q.maxQueueSize)
+		heap.Remove(&q.queue, q.queue.lastToPopIndex())
 	}
 }
 
@@ -107,6 +107,18 @@ func (pq *priorityQueue) Pop() interface{} {
 	item := old[n-1]
 	(*pq).items = old[0 : n-1]
 	return item
+}
+
+// lastToPopIndex returns the index of the item that Pop would return last: the one to give up when the
+// queue is over its capacity (the last slot of the heap array is not that item in general).
+func (pq *priorityQueue) lastToPopIndex() int {
+	last := 0
+	for i := 1; i < len(pq.items); i++ {
+		if pq.Less(last, i) {
+			last = i
+		}
+	}
+	return last
 }
 
 func (pq *priorityQueue) Peek() interface{} {
